@@ -2,7 +2,7 @@
    Model: Model/HeadShift.v, a model of ShiftFormula (theory/head.py): shifting a head formula from its origin step s to
    the current step s+d, with until/release unrolled and parts behind the current step read classically. *)
 From Coq Require Import List Bool Arith ZArith Lia.
-Require Import HeadShift HeadComplete.
+Require Import GenPrelude TheoryPrelude FormPrelude FromHeadForm HT TEL Laws HeadShift HeadComplete HeadForm.
 (* at the origin step the shifted formula is classically the formula itself *)
 Theorem C04_shift_origin_classical : forall (A : Type) (h : nat) (T : trace A) (p : hf A) (k : nat), k <= h ->
   ssat A h T T (shift A p 0) k = csat A h T p k.
@@ -33,9 +33,41 @@ Theorem C04_head_formulas_are_admissible_heads : forall (A : Type) (h : nat) (b 
   past_body A {| body := b; head := fun H T t => hsat A h H T q t |} -> mono_body A {| body := b; head := fun H T t => hsat A h H T q t |} ->
   let r := {| body := b; head := fun H T t => hsat A h H T q t |} in past_body A r /\ future_head A r /\ mono_body A r /\ mono_head A r.
 Proof. exact head_formula_rule_admissible. Qed.
+(* ---- the implementation side, over tables and guards REGENERATED from theory/head.py ---- *)
+(* for every operator admitted in heads and every number of arguments, the head formula object built by create_formula denotes (THT_f, any
+   pair of worlds H <= T) the documented formula: a ;> b = a & > b, >> p = >* (~ &final | p), 0 > p = p, >? p = &true >? p, >* p = &false >* p *)
+Theorem C04_create_formula_builds_the_documented_formulas : forall (A : Type) (h : nat) (ini fin : A) (H T : trace A),
+  tle A H T -> markers A h ini fin H -> markers A h ini fin T -> Forall (head_entry_ok A h ini fin H T) head_doc_ops.
+Proof. exact head_create_sound. Qed.
+Theorem C04_past_operators_rejected_in_heads : forall op, In op head_forbidden -> head_create_gen op 1 = None /\ head_create_gen op 2 = None.
+Proof. exact head_forbidden_rejected. Qed.
+(* the hand-written model of ShiftFormula takes the decisions regenerated from the source *)
+Theorem C04_shift_model_follows_source_next : forall (A : Type) n w (x : hf A) d,
+  shift A (HNx A n w x) d =
+  match shift_next_inside_gen n d, shift_next_rest_gen n d, shift_next_ahead_gen n d with
+  | Some true, Some rest, _ => shift A x (Z.to_nat rest)
+  | Some false, _, Some ahead => SFwd A (Z.to_nat ahead) w x
+  | _, _, _ => SBack A d (HNx A n w x)
+  end.
+Proof. exact shift_next_spec. Qed.
+Theorem C04_shift_model_follows_source_until : forall (A : Type) u (l r : hf A) d,
+  shift A (HUn A u l r) d =
+  clause_of A (shift_until_outer_conj_gen u) (shift A r d)
+    (clause_of A (shift_until_inner_conj_gen u) (shift A l d)
+       (match d with 0 => SFwd A 1 (shift_until_next_weak_gen u) (HUn A u l r) | S e => shift A (HUn A u l r) e end)).
+Proof. exact shift_until_spec. Qed.
+(* the clause list of UnfoldFormula is the conjunctive normal form of the shifted formula: all clauses hold iff the formula holds *)
+Theorem C04_unfold_is_cnf : forall (A : Type) (h : nat) (H T : trace A) (k : nat) (g : sf A),
+  forallb (clause_sat A h H T k) (unfold A g) = ssat A h H T g k.
+Proof. exact unfold_sat. Qed.
 Print Assumptions C04_shift_origin_classical.
 Print Assumptions C04_shift_is_consequence.
 Print Assumptions C04_single_state_reading.
 Print Assumptions C04_translation_exact.
 Print Assumptions C04_rules_splittable.
 Print Assumptions C04_head_formulas_are_admissible_heads.
+Print Assumptions C04_create_formula_builds_the_documented_formulas.
+Print Assumptions C04_past_operators_rejected_in_heads.
+Print Assumptions C04_shift_model_follows_source_next.
+Print Assumptions C04_shift_model_follows_source_until.
+Print Assumptions C04_unfold_is_cnf.
